@@ -1057,7 +1057,7 @@ def c19(res, tier, seed, lib):
             os.chmod(path, 0o755)
         cases = [("absent", None, "no-picker"), ("exit-nonzero", "exit 3", "other"), ("garbage", "echo 'not a colour'", "color-parse"),
                  ("non-utf8", "printf '\\377\\376'", "invalid-utf8"), ("valid", "echo '#ff8800'", None),
-                 ("empty", "true", "color-parse"), ("prints-pick", "echo pick", "color-parse")]
+                 ("empty", "true", "color-parse"), ("prints-pick", "echo pick", "color-parse"), ("prints-dash", "echo -", "color-parse")]
         for (name, body, want) in cases:
             env = {"PATH": d + ":/usr/bin:/bin"} if body is not None else {"PATH": "/nonexistent"}
             if body is not None:
@@ -1156,6 +1156,9 @@ def c19(res, tier, seed, lib):
                         continue
                     generic_oracle(res, cmd + ["<picker %s:%s>" % (name, label)], rc, out, err, allow_partial_line=True)
                     # (replies whose numbers Rust parses as NaN/inf may be accepted or rejected: only the exit-status rule applies)
+                    if want_rc == 1 and rc == 1 and reply.strip():
+                        cls, msg = classify_stderr(err)
+                        res.check(cls == "color-parse" and msg is not None and reply.strip().split("\n")[0] in msg, "picker-error-names-the-reply", "cli:colorpicker", inp, repr(msg))
                     res.check(want_rc is None or rc == want_rc, "picker-reply-handled", "cli:colorpicker", inp, "rc=%s stderr=%r" % (rc, err[-160:]))
     finally:
         shutil.rmtree(d, ignore_errors=True)
@@ -1410,6 +1413,14 @@ def c07(res, tier, seed, lib):
         res.model_op()
         if mo != impl:
             res.disagree(inp, impl[:300], mo[:300])
+    # the base given as '-' is one colour read once from stdin, like the same colour as an argument
+    for sp in ["rgb", "lab", "hsl"]:
+        ra = run_cli(["mix", "-s", sp, "red", "blue", "green", "#123456"])
+        rd = run_cli(["mix", "-s", sp, "-", "blue", "green", "#123456"], stdin=b"red\n")
+        rd2 = run_cli(["mix", "-s", sp, "-", "blue", "green", "#123456"], stdin=b"red\nwhite\nblack\n")
+        res.case("mix -s %s - blue green #123456 < red" % sp)
+        res.check(ra[0] == rd[0] == rd2[0] == 0 and ra[1] == rd[1] == rd2[1], "mix-base-from-stdin-read-once", "cli:mix", "mix -s %s - blue green #123456" % sp,
+                  "args: rc=%s %r; '-' with one line: rc=%s %r; with three lines: %r" % (ra[0], ra[1][:80], rd[0], rd[1][:80], rd2[1][:80]))
     # the default fraction is 0.5 and the default space Lab
     rc1, out1, _ = run_cli(["mix", "red", "blue"])
     rc2, out2, _ = run_cli(["mix", "-f", "0.5", "-s", "Lab", "red", "blue"])
